@@ -182,6 +182,16 @@ def run(res, tier, seed):
         open(os.path.join(cdir, "in.xml"), "w").write("<a/>")
         cases.append({"id": k, "dir": cdir, "trace": "none", "select": False})
         metas.append(("value", vals, fmt)); k += 1
+    # grouping-separator / grouping-size (both given) on decimal numbering
+    gvals = [1, 12, 123, 1234, 12345, 123456, 1234567, 1000, 1000000, 999999, 100, 99999999]
+    for gsep in [",", ".", " ", "'", "_"]:
+        for gsize in ([1, 2, 3, 4] if not quick else [rng.choice([1, 2]), 3, 4]):
+            cdir = os.path.join(wd, "case%d" % k); os.makedirs(cdir)
+            body = "".join('<n><xsl:number value="%d" grouping-separator=%s grouping-size="%d"/></n>' % (v, quoteattr(gsep), gsize) for v in gvals)
+            open(os.path.join(cdir, "main.xsl"), "w").write('<xsl:stylesheet version="1.0" %s><xsl:template match="/"><o>%s</o></xsl:template></xsl:stylesheet>' % (XSLNS, body))
+            open(os.path.join(cdir, "in.xml"), "w").write("<a/>")
+            cases.append({"id": k, "dir": cdir, "trace": "none", "select": False})
+            metas.append(("group", gvals, gsep, gsize)); k += 1
     exe = vlib.build_harness("xslt")
     nsh = vlib.NCPU
     procs = []
@@ -215,6 +225,13 @@ def run(res, tier, seed):
                     events.append({"e": "Number", "doc": d + 1, "node": node, "instr": sins, "fmt": xdm.cps(fmt), "out": xdm.cps(o), "sample": c["id"]})
                     if o not in ("", "1"):
                         nontriv.add(vlib.canon_hash([d, node, sample["xsl"].split("\n")[1]]))
+            elif m[0] == "group":
+                _, gv, gsep, gsize = m
+                if outs is None or len(outs) != len(gv):
+                    res.violation("result tree does not hold one <n> per value", [sample, dn]); continue
+                for v, o in zip(gv, outs):
+                    events.append({"e": "Group", "value": v, "gsep": xdm.cps(gsep), "gsize": gsize, "out": xdm.cps(o), "sample": c["id"]})
+                    nontriv.add(vlib.canon_hash([v, gsep, gsize]))
             else:
                 _, vals, fmt = m
                 if outs is None or len(outs) != len(vals):
@@ -243,7 +260,7 @@ def run(res, tier, seed):
     res.cov["traces_validated_against_impl"] = len(events) - len(rejects) - st["dropped"]
     res.cov["distinct_nontrivial"] = len(nontriv)
     res.cov["rule"] = ("seeded xsl:number instructions (3 levels x count/from from an 11-pattern pool or defaults x 20 formats incl. punctuation-only and empty ones) x documents; each instruction numbers the nodes of "
-                       "the document in document, reverse and shuffled visiting order through ONE instruction instance; plus value=/format= tables (alphabetic carry, roman, padding); "
+                       "the document in document, reverse and shuffled visiting order through ONE instruction instance; plus value=/format= tables (alphabetic carry, roman, padding, fractional values rounded as by round()) and grouping-separator / grouping-size tables; "
                        "non-trivial = output other than '' or '1'; distinct by (document, node, instruction) resp. (value, format)")
     for ev in events[:: max(1, len(events) // 4)][:4]:
         res.sample({k: ev[k] for k in ev if k not in ("sample",)})
